@@ -663,7 +663,7 @@ class Evaluator:
 
 
     # ---------------------------------------------------------------- canonical iteration
-    def iter_binding(self, iter_node, target, env, ctx, body=None):
+    def iter_binding(self, iter_node, target, env, ctx, body=None, snapshot_ok=False):
         """Canonical loop binding.  `for k, v in d.items()`, `for k in d` / `d.keys()` + `d[k]`, `for v in d.values()`,
         `for i, x in enumerate(s)`, `for i in range(len(s))` all iterate the container `d` / `s`: the key (or index)
         variable is loopvar(iter(d)) and the element is d[key].  Returns (it_term, bindings dict)."""
@@ -685,6 +685,10 @@ class Evaluator:
         if len(alts) != 1 or alts[0][0]:
             raise Unreadable("conditional iterable")
         cv = alts[0][1]
+        if snapshot_ok and form == "plain" and isinstance(cv, Rat) and isinstance(cv.single_atom(), tuple) and len(cv.single_atom()) == 2 \
+                and cv.single_atom()[0] in ("list", "tuple") and isinstance(cv.single_atom()[1], tuple):
+            # a comprehension over list(X) visits the elements of X (nothing can change X while the comprehension runs)
+            cv = Rat.atom(cv.single_atom()[1])
         if form == "plain" and isinstance(cv, Rat) and isinstance(cv.single_atom(), tuple) and len(cv.single_atom()) == 2 \
                 and cv.single_atom()[0] in ("keys", "items", "values") and not isinstance(cv.single_atom()[1], str):
             # `ks = d.keys(); for k in ks` is `for k in d.keys()`
@@ -1459,6 +1463,13 @@ class Evaluator:
                                                        len(b.items)))))
                     elif isinstance(b, Tup) and isinstance(i, Rat) and i.is_const():
                         out.append((c1 | c2, b.items[int(i.const_value())]))
+                    elif isinstance(i, Rat) and isinstance(i.single_atom(), tuple) and i.single_atom()[0] == "firstpos" \
+                            and isinstance(b, Rat) and b.single_atom() is not None and self._iterates(i.single_atom()[1], b.single_atom()):
+                        # S[position of the first x in S with c(x)] is the first element of [x for x in S if c(x)]
+                        _fp = i.single_atom()
+                        cterm = _fp[1][1]
+                        elem = Rat.atom(("idx", cterm, ("loopvar", _fp[1])))
+                        out.append((c1 | c2, Rat.atom(("item", as_term(Seq(_fp[1], elem, _fp[2])), 0))))
                     elif isinstance(i, Rat) and i.is_const() and i.const_value().denominator == 1 and i.const_value() < 0 \
                             and isinstance(b, Rat) and b.single_atom() is not None:
                         # x[-k] is x[len(x) - k]; positional accessors of a series / frame have their owner's length
@@ -1623,7 +1634,7 @@ class Evaluator:
         if len(node.generators) != 1:
             raise Unreadable("nested comprehension")
         g = node.generators[0]
-        it_term, binds = self.iter_binding(g.iter, g.target, env, ctx, body=[node.elt] + list(g.ifs))
+        it_term, binds = self.iter_binding(g.iter, g.target, env, ctx, body=[node.elt] + list(g.ifs), snapshot_ok=True)
         e2 = dict(env)
         e2.update(binds)
         filt = frozenset()
@@ -1650,6 +1661,23 @@ class Evaluator:
         if len(vs) != 1 or vs[0][0]:
             raise Unreadable("piecewise comprehension element")
         return Seq(it_term, vs[0][1], filt)
+
+    @staticmethod
+    def _iterates(it_term, base_atom) -> bool:
+        """Does iterating `it_term` = ("iter", C) visit, in order, the elements that `base_atom` holds by position?
+        (base is C itself, C.values(), or a list / tuple snapshot of one of them)"""
+        if not (isinstance(it_term, tuple) and len(it_term) == 2 and it_term[0] == "iter"):
+            return False
+        c = it_term[1]
+        b = base_atom
+        for _ in range(3):
+            if b == c:
+                return True
+            if isinstance(b, tuple) and len(b) == 2 and b[0] in ("list", "tuple", "values"):
+                b = b[1]
+            else:
+                return False
+        return b == c
 
     def _ifexp_idiom(self, node: ast.IfExp, env, ctx):
         t = node.test
@@ -1841,6 +1869,17 @@ class Evaluator:
     def call(self, node: ast.Call, env, ctx):
         nm = _callname(node)
         short = nm.split(".")[-1]
+        if isinstance(node.func, ast.Attribute) and node.func.attr == "index" and len(node.args) == 1 and not node.keywords:
+            # [f(x) for x in S].index(v): the position of the first element of S with f(x) == v
+            try:
+                ra = self.ev(node.func.value, env, ctx)
+                if len(ra) == 1 and not ra[0][0] and isinstance(ra[0][1], Seq) and not ra[0][1].filt and isinstance(ra[0][1].elt, Rat):
+                    va = self.ev(node.args[0], env, ctx)
+                    if len(va) == 1 and not va[0][0] and isinstance(va[0][1], Rat):
+                        sq = ra[0][1]
+                        return [(frozenset(), Rat.atom(("firstpos", sq.it, frozenset([Cond("==", sq.elt - va[0][1])]))))]
+            except Unreadable:
+                pass
         # argument alternatives
         def args_alts():
             alts = [(frozenset(), [], {})]
